@@ -39,6 +39,7 @@ func fcModel(x, w, b *ref.T) *ref.T {
 }
 
 func checkC16(c *core.Ctx) {
+	defer specialC16(c)
 	defer sweepC16(c)
 	defer selfCases(c, false, "fc")
 	defer selfCases(c, true, "fc")
